@@ -811,7 +811,10 @@ func TestC06(t *testing.T) {
 	runGenericProperty(t, "C06", "the real transform.Controller / qtransform.QController (plain, ignore-tearing-down, ignore-teardown-until/while) inside a real Runtime under synctest, optionally with destroy.Controller on the inputs: random histories of create/update/teardown/destroy/re-create of inputs, "+
 		"foreign finalizers on inputs and outputs, transform durations 0..200ms, transient transform failures, concurrency 1-2; at every quiescence the oracle requires owned outputs == images of mapped inputs with the latest transformed content, no orphaned/stale output except ones held by foreign finalizers, no leftover finalizer on torn-down inputs whose output is gone; "+
 		"non-trivial = at least two of teardown/destroy/re-create/foreign finalizers/faults occurred; "+
-		"plus gated schedules of qtransform.QController.Reconcile on the real qruntime adapter (every runtime call held at a gate, environment operations within the property's assumptions in every gap, transform faults) ending with an undisturbed reconcile: replayed on GenCtl.q_step and the final state checked against GenCtlConv.converged", gatedQPhase(t, "C06"))
+		"plus gated schedules of qtransform.QController.Reconcile on the real qruntime adapter (every runtime call held at a gate, environment operations within the property's assumptions in every gap, transform faults) ending with an undisturbed reconcile: replayed on GenCtl.q_step and the final state checked against GenCtlConv.converged; the same for transform.Controller.Run with two undisturbed cycles at the end (Transform.t_step)", func(rep *Report, dir string) {
+			gatedQPhase(t, "C06")(rep, dir)
+			gatedTransformPhase(t, "C06")(rep, dir)
+		})
 }
 
 func TestC07(t *testing.T) {
@@ -821,7 +824,7 @@ func TestC07(t *testing.T) {
 		"the schedule, the kind of every runtime call, the reconcile result and the final store are replayed on GenCtl.q_step; the same for cleanup.Controller.Run with HasNoOutputs handlers (single and combined) against Cleanup.c_step, and for transform.Controller.Run with input finalizers against Transform.t_step", func(rep *Report, dir string) {
 			gatedQPhase(t, "C07")(rep, dir)
 			gatedCleanupPhase(t)(rep, dir)
-			gatedTransformPhase(t)(rep, dir)
+			gatedTransformPhase(t, "C07")(rep, dir)
 		})
 }
 
